@@ -96,4 +96,11 @@ theorem text_MetadataCache_Cleanup_ok : Oidc.Shapes.Text_MetadataCache_Cleanup :
 /-! further obligations against the regenerated program text (`Oidc/Shapes.lean`): constructor wiring and URL builders -/
 theorem text_createDefaultHTTPClient_ok : Oidc.Shapes.Text_createDefaultHTTPClient := by unfold Oidc.Shapes.Text_createDefaultHTTPClient; rfl
 
+
+/-! ## Program text of the helpers these theorems also rest on (constructors, accessors, token endpoint, configuration) -/
+theorem text_NewMetadataCache_ok : Oidc.Shapes.Text_NewMetadataCache := by unfold Oidc.Shapes.Text_NewMetadataCache; rfl
+theorem text_MetadataCache_Close_ok : Oidc.Shapes.Text_MetadataCache_Close := by unfold Oidc.Shapes.Text_MetadataCache_Close; rfl
+theorem text_MetadataCache_startAutoCleanup_ok : Oidc.Shapes.Text_MetadataCache_startAutoCleanup := by unfold Oidc.Shapes.Text_MetadataCache_startAutoCleanup; rfl
+theorem text_isValidSecureURL_ok : Oidc.Shapes.Text_isValidSecureURL := by unfold Oidc.Shapes.Text_isValidSecureURL; rfl
+
 end Oidc.Props.C20
